@@ -64,9 +64,26 @@ func sparseAlloc(cap, max uint64) experimental.LinearMemory {
 
 func module(min uint32, max *uint32, shared bool) []byte {
 	m := wb.New()
+	hgrow := m.ImportFunc("env", "hgrow", []byte{wb.I32}, []byte{wb.I32})
 	m.Memory(min, max, shared, "memory")
-	m.AddFunc(wb.Func{Params: []byte{wb.I32}, Results: []byte{wb.I32}, Export: "grow",
+	ggrow := m.AddFunc(wb.Func{Params: []byte{wb.I32}, Results: []byte{wb.I32}, Export: "grow",
 		Body: wb.Cat(wb.LocalGet(0), wb.MemoryGrow())})
+	// access, grow in a CALLEE (host function using the API / another guest function), access again in the
+	// same function: (a1, delta, a2) -> previous size.  The compiler keeps the memory base and length in
+	// registers across instructions and has to refresh them after every call.
+	for _, v := range []struct {
+		name   string
+		callee uint32
+		store  bool
+	}{{"touch_hgrow_touch", hgrow, false}, {"touch_ggrow_touch", ggrow, false}, {"touch_hgrow_store", hgrow, true}, {"touch_ggrow_store", ggrow, true}} {
+		second := wb.Cat(wb.LocalGet(2), wb.MemArg(wasm.OpcodeI32Load8U, 0, 0), wb.Op(wasm.OpcodeDrop))
+		if v.store {
+			second = wb.Cat(wb.LocalGet(2), wb.LocalGet(2), wb.MemArg(wasm.OpcodeI32Load8U, 0, 0), wb.MemArg(wasm.OpcodeI32Store8, 0, 0))
+		}
+		m.AddFunc(wb.Func{Params: []byte{wb.I32, wb.I32, wb.I32}, Results: []byte{wb.I32}, Locals: []byte{wb.I32}, Export: v.name,
+			Body: wb.Cat(wb.LocalGet(0), wb.MemArg(wasm.OpcodeI32Load8U, 0, 0), wb.Op(wasm.OpcodeDrop),
+				wb.LocalGet(1), wb.Call(v.callee), wb.LocalSet(3), second, wb.LocalGet(3))})
+	}
 	m.AddFunc(wb.Func{Results: []byte{wb.I32}, Export: "size", Body: wb.MemorySize()})
 	m.AddFunc(wb.Func{Params: []byte{wb.I32}, Results: []byte{wb.I32}, Export: "load8",
 		Body: wb.Cat(wb.LocalGet(0), wb.MemArg(wasm.OpcodeI32Load8U, 0, 0))})
@@ -79,13 +96,13 @@ func module(min uint32, max *uint32, shared bool) []byte {
 }
 
 type config struct {
-	Min     uint32  `json:"min"`
-	Max     *uint32 `json:"max"`
-	Limit   uint32  `json:"limit"`
-	CFM     bool    `json:"cap_from_max"`
-	Alloc   bool    `json:"allocator"`
-	Shared  bool    `json:"shared"`
-	Engine  string  `json:"engine"`
+	Min     uint32   `json:"min"`
+	Max     *uint32  `json:"max"`
+	Limit   uint32   `json:"limit"`
+	CFM     bool     `json:"cap_from_max"`
+	Alloc   bool     `json:"allocator"`
+	Shared  bool     `json:"shared"`
+	Engine  string   `json:"engine"`
 	History []string `json:"history,omitempty"`
 }
 
@@ -194,6 +211,15 @@ func newInst(c config) *inst {
 	}
 	rc = rc.WithCoreFeatures(features()).WithMemoryLimitPages(c.Limit).WithMemoryCapacityFromMax(c.CFM)
 	rt := wazero.NewRuntimeWithConfig(ctx, rc)
+	if _, err := rt.NewHostModuleBuilder("env").NewFunctionBuilder().WithGoModuleFunction(api.GoModuleFunc(func(_ context.Context, mod api.Module, stack []uint64) {
+		prev, ok := mod.Memory().Grow(uint32(stack[0]))
+		if !ok {
+			prev = 0xffffffff
+		}
+		stack[0] = uint64(prev)
+	}), []api.ValueType{api.ValueTypeI32}, []api.ValueType{api.ValueTypeI32}).Export("hgrow").Instantiate(ctx); err != nil {
+		hx.Fatal("env: %v", err)
+	}
 	bin := module(c.Min, c.Max, c.Shared)
 	want := orc.Askf("c14 decode %d %s %d %s", c.Limit, b(c.CFM), c.Min, c.maxStr())
 	mod, err := rt.InstantiateWithConfig(ctx, bin, wazero.NewModuleConfig().WithName(""))
@@ -231,14 +257,43 @@ func (i *inst) call(name string, args ...uint64) ([]uint64, error) {
 
 func (i *inst) at4g() bool { return i.cur == 65536 }
 
-// grow through the guest (guest=true) or the host API.
-func (i *inst) grow(delta uint32, guest bool) {
+var inFn = []string{"touch_hgrow_touch", "touch_ggrow_touch", "touch_hgrow_store", "touch_ggrow_store"}
+
+// grow through the guest (guest=true) or the host API; via > 0: inside a guest function that accesses the
+// memory before the growing call and (in the pages that the grow adds, when it succeeds) after it.
+func (i *inst) grow(delta uint32, guest bool, via int) {
 	op := fmt.Sprintf("grow(%#x,guest=%v)", delta, guest)
+	if via > 0 && i.cur > 0 && i.cur+uint64(delta) < 65536 && i.cur < 65536 {
+		// (at 65536 pages every compiled access traps: finding F13, reported by sizes()/probes())
+		op = fmt.Sprintf("grow(%#x,%s)", delta, inFn[via-1])
+	} else {
+		via = 0
+	}
 	i.hist = append(i.hist, op)
 	want := orc.Askf("c14 grow %d %d %s 0 0", i.id, delta, b(i.c.Alloc))
 	var prev uint32
 	var ok bool
-	if guest {
+	if via > 0 {
+		newPages := i.cur
+		if i.cur+uint64(delta) <= uint64(i.max) {
+			newPages = i.cur + uint64(delta)
+		}
+		a2 := newPages*65536 - 1
+		res, err := i.call(inFn[via-1], 0, uint64(delta), a2)
+		rep.Count("grow-inside-function:" + inFn[via-1])
+		if err != nil {
+			rep.Violate(hx.Violation{Kind: "impl-violation", Signature: "C14:access-after-grow-in-callee:" + i.c.Engine,
+				What:  fmt.Sprintf("%s(0, %d, %#x) at %d pages (max %d): %s; the property requires the access at the last byte of the %d-page memory to succeed", inFn[via-1], delta, a2, i.cur, i.max, strings.SplitN(err.Error(), "\n", 2)[0], newPages),
+				Input: i.input()})
+			// the grow itself may have happened: resynchronise on the API's view
+			if uint64(i.mem.Size()) == newPages*65536 {
+				i.cur = newPages
+			}
+			return
+		}
+		prev = uint32(res[0])
+		ok = prev != 0xffffffff
+	} else if guest {
 		res, err := i.call("grow", uint64(delta))
 		if err != nil {
 			rep.Violate(hx.Violation{Kind: "impl-violation", Signature: "C14:guest-grow-error:" + i.c.Engine, What: "memory.grow returned an error: " + err.Error(), Input: i.input()})
@@ -524,7 +579,11 @@ func history(c config, deltas []uint32, r interface{ Intn(int) int }) {
 	i.probes(r)
 	for k, d := range deltas {
 		old := i.cur * 65536
-		i.grow(d, (k+r.Intn(2))%2 == 0)
+		via := 0
+		if r.Intn(3) == 0 {
+			via = 1 + r.Intn(len(inFn))
+		}
+		i.grow(d, (k+r.Intn(2))%2 == 0, via)
 		i.sizes()
 		i.contents(old)
 		if k == len(deltas)-1 || r.Intn(3) == 0 {
